@@ -885,6 +885,16 @@ func genRace(seed uint64, run int) *Case {
 		}
 		cs.Threads = append(cs.Threads, tp)
 	}
+	for _, c := range vc {
+		if er := NewRng(seed, uint64(run), 100); c.Kind == KEnum && er.Chance(0.5) {
+			// a string filter over the enum column beside a writer that stores a string the column
+			// has never seen (the string table grows while it is being read)
+			cs.Threads = append(cs.Threads,
+				ThreadProg{Role: "reader", Txns: []TxnProg{{Ops: []Op{{Kind: "range", Filter: []FStep{{Kind: "withstring", Names: []string{c.Name}, Pred: &PredSpec{Fam: "spre", S: "m"}}}, Yield: er.Chance(0.5)}}}}},
+				ThreadProg{Role: "writer", Txns: []TxnProg{{Ops: []Op{{Kind: "at", Target: Target{Mode: "stable", K: er.Intn(64)}, Writes: []Write{{Col: c.Name, Val: strVal(fmt.Sprintf("fresh-%d-%d", run, er.Intn(1000)))}}}}}}})
+			break
+		}
+	}
 	if farLayout && len(vc) > 0 {
 		// two writers whose first transactions touch blocks {1, 128} and {0, 129}: the same two
 		// latch shards, reached in opposite order when going by block number
